@@ -879,6 +879,8 @@ def may_be_unhashable(by, nid, seen=None):
             return may_be_unhashable(by, d["n"], seen)
         return False
     if k == "dataset":
+        if n.get("returns") is not None:
+            return True  # (a list holding something uncopyable / whatever another node evaluates to)
         if n.get("body") == "selector":
             return any(may_be_unhashable(by, c, seen) for c in n.get("args", {}).values())
         return any("n" in impl and may_be_unhashable(by, impl["n"], seen) for _, impl in n.get("overloads", []))
